@@ -3,6 +3,8 @@ package engine
 import (
 	"fmt"
 
+	"verif/harness/sim"
+
 	"github.com/weedbox/pokerface"
 )
 
@@ -135,6 +137,21 @@ func (r *run) checkC06(d *delivery, cl opClass, i int) {
 	if (post.Result != nil) != (post.Status.CurrentEvent == "GameClosed") {
 		r.viol("C06", "result-iff-closed", fmt.Sprintf("event %s, result present: %v", post.Status.CurrentEvent, post.Result != nil), i)
 	}
+	if pre.Status.CurrentEvent == "GameClosed" && (d.err == nil || string(d.preJSON) != string(d.postJSON)) {
+		r.viol("C06", "closed-hand-accepted-operation: "+d.st.Op, fmt.Sprintf("%s on a closed hand: err=%v, state changed=%v", d.st, d.err, string(d.preJSON) != string(d.postJSON)), i)
+	}
+	// no state may ever repeat after an accepted operation: a repeated
+	// state is a cycle in the reachable graph, i.e. an infinite path
+	if cl.legit && d.err == nil && pre.Status.CurrentEvent != "GameClosed" {
+		h := sim.HashBytes(d.postJSON)
+		if r.seenState == nil {
+			r.seenState = map[uint64]int{}
+		}
+		if prev, ok := r.seenState[h]; ok {
+			r.viol("C06", "state-repeated (a cycle: the hand need not finish)", fmt.Sprintf("the state after step %d (%s) is identical to the state after step %d: %s", i, d.st, prev, fmtState(post)), i)
+		}
+		r.seenState[h] = i
+	}
 	if pre.Status.CurrentEvent == "GameClosed" && post.Status.CurrentEvent != "GameClosed" {
 		r.viol("C06", "left-closed-state", fmt.Sprintf("%s moved a closed hand to %s", d.st, post.Status.CurrentEvent), i)
 	}
@@ -196,12 +213,20 @@ func (r *run) checkC05(d *delivery, cl opClass, accepted bool, i int) {
 		}
 		// safety at closing
 		if evPost == "RoundClosed" && alive(post) >= 2 {
+			// the wager to match is the highest wager on the table (not
+			// the engine's own field)
+			toMatch := post.Status.CurrentWager
+			for _, p := range post.Players {
+				if p.Wager > toMatch {
+					toMatch = p.Wager
+				}
+			}
 			for k, p := range post.Players {
 				if p.Fold || p.StackSize == 0 {
 					continue
 				}
-				if p.Wager < post.Status.CurrentWager {
-					r.viol("C05", "closed-with-unmatched-wager", fmt.Sprintf("round closed by %s while seat %d has %d < %d: %s", d.st, k, p.Wager, post.Status.CurrentWager, fmtState(post)), i)
+				if p.Wager < toMatch {
+					r.viol("C05", "closed-with-unmatched-wager", fmt.Sprintf("round closed by %s while seat %d has %d < %d: %s", d.st, k, p.Wager, toMatch, fmtState(post)), i)
 				}
 				if k < len(had) && !had[k] {
 					r.viol("C05", "closed-before-everyone-had-a-turn", fmt.Sprintf("round closed by %s while seat %d had no turn since the last increase: %s", d.st, k, fmtState(post)), i)
